@@ -242,6 +242,21 @@ def run(case, ctx):
         if not ok or list(fd2.result) != list(r1):
             ctx.violate(f"C01/history/{cname}", f"the same condition object gives {fd2.result if ok else fd2!r} on a container it "
                         f"gave {r1} for before being used on another container")
+    # history: the caller edits its container in place and filters it again with the same condition
+    if r1 is not None and len(items) >= 1:
+        c2 = M.deep_copy(cont)
+        call(cond.filter, c2)
+        k0 = items[0][0]
+        repl = [v for v in ZOO_VALUES if canon(v) != canon(items[0][1])][(len(items) + len(str(leaf))) % 5]
+        c2[k0] = repl
+        e2 = [M.eval_leaf_ex(leaf, k, v)[0] for k, v in M.items_of(c2)]
+        ok, fd3 = call(cond.filter, c2)
+        ctx.count("entry:refilter-after-in-place-edit")
+        if not ok:
+            ctx.violate(f"C01/{fd3.key()}/{cname}", f"refilter after in-place edit raised {fd3!r}")
+        elif any(w is not M.SKIP and g != w for g, w in zip(fd3.result, e2)) or len(fd3.result) != len(e2):
+            ctx.violate(f"C01/history/{cname}", f"after the caller replaced item {k0!r} by {repl!r} in place, the same condition gives "
+                        f"{fd3.result}, documented meaning gives {e2}")
     judged = [e for e in exp if e is not M.SKIP]
     if (True in judged and False in judged) or n_undef:
         ctx.mark_nontrivial((cname, repr(leaf.get("args")), repr(leaf.get("kwargs")), repr(cont)))
